@@ -277,21 +277,24 @@ Proof. cbv zeta. do 4 eexists. split; [vm_compute; reflexivity|]. split; [vm_com
 
 (* [member g n k]: volume k is listed on the GEOMCOMP line of name n;
    [attached vols cells n k]: k is an emitted non-virtual volume and n is
-   material_name (= material token, '_' and density unless void) of the cell at
-   the head of the volume's provenance *)
+   material_name z c (= decimal spelling of the material NUMBER z = int(token),
+   '_' and density unless void) of the cell c at the head of the volume's
+   provenance *)
 Example C09_member_unfold : forall g n k,
   member g n k <-> exists l, In (n, l) g /\ In k l.
 Proof. intros. reflexivity. Qed.
 Example C09_attached_unfold : forall vols cells n k,
   attached vols cells n k <->
-  exists v c, In (k, v) vols /\ v_fictive v = false /\
-              lookup (vol_source k v) cells = Some c /\ n = material_name c.
+  exists v c z, In (k, v) vols /\ v_fictive v = false /\
+                lookup (vol_source k v) cells = Some c /\ int_of_token (c_mat c) = Some z /\
+                n = material_name z c.
 Proof. intros. reflexivity. Qed.
 
 Theorem C09_geomcomp_name : forall (vols : dict vol) (cells : dict cell) (g : list (string * list Z)),
   geomcomp vols cells = Ok g ->
   (forall k v, In (k, v) vols -> v_fictive v = false ->
-     exists c, lookup (vol_source k v) cells = Some c /\ member g (material_name c) k) /\
+     exists c z, lookup (vol_source k v) cells = Some c /\ int_of_token (c_mat c) = Some z /\
+                 member g (material_name z c) k) /\
   (forall n k, member g n k -> attached vols cells n k) /\
   NoDup (map fst g) /\ Forall (fun nl => snd nl <> []) g.
 Proof. exact geomcomp_name. Qed.
@@ -305,13 +308,13 @@ Proof. exact geomcomp_one_line. Qed.
 Print Assumptions C09_geomcomp_one_line.
 
 (* the written lines: 'm' + name, number of volumes, the volumes; a void cell
-   gives its material token alone (m0) *)
+   gives its material number alone (m0 for every spelling of 0) *)
 Theorem C09_geomcomp_lines : forall (vols : dict vol) (cells : dict cell) (lines : list (string * N * list Z)),
   geomcomp_lines vols cells = Ok lines ->
   (exists g, geomcomp vols cells = Ok g /\
              lines = map (fun nl => ("m" ++ fst nl, N.of_nat (List.length (snd nl)), snd nl)) g) /\
-  (forall c, c_dens c = None -> material_name c = c_mat c) /\
-  (forall c d, c_dens c = Some d -> material_name c = c_mat c ++ "_" ++ d).
+  (forall z c, c_dens c = None -> material_name z c = dec_Z z) /\
+  (forall z c d, c_dens c = Some d -> material_name z c = dec_Z z ++ "_" ++ d).
 Proof.
   intros vols cells lines H. split; [exact (geomcomp_lines_spec vols cells lines H)|].
   split; [exact material_name_void | exact material_name_dens].
@@ -319,8 +322,8 @@ Qed.
 Print Assumptions C09_geomcomp_lines.
 
 Example C09_geomcomp_nontrivial :
-  let cells := [(1, mkCell "1" (Some "-1.0") 1 0 None []); (2, mkCell "0" None 1 0 None []);
-                (4, mkCell "1" (Some "-2.5") 1 2 None [])]%Z in
+  let cells := [(1, mkCell "01" (Some "-1.0") 1 0 None []); (2, mkCell "00" None 1 0 None []);
+                (4, mkCell "+1" (Some "-2.5") 1 2 None [])]%Z in
   let vols := [(1, mkVol false []); (2, mkVol false []); (9, mkVol true []);
                (7, mkVol false [(4, 2); (4, 1)])]%Z in
   geomcomp_lines vols cells = Ok [("m1_-1.0", 1%N, [1%Z]); ("m0", 1%N, [2%Z]); ("m1_-2.5", 1%N, [7%Z])].
@@ -339,8 +342,8 @@ Theorem C09_volume_gets_leaf_material :
      In k ks /\ exists c, lookup k (fst st') = Some c /\ v_origin v = c_origin c) ->
   geomcomp vols (fst st') = Ok g ->
   forall k v, In (k, v) vols -> v_fictive v = false ->
-    exists L, lookup (head_of (fst st') k) d0 = Some L /\ c_fill L = None /\
-              member g (material_name L) k.
+    exists L z, lookup (head_of (fst st') k) d0 = Some L /\ c_fill L = None /\
+                int_of_token (c_mat L) = Some z /\ member g (material_name z L) k.
 Proof. exact volume_gets_leaf_material. Qed.
 Print Assumptions C09_volume_gets_leaf_material.
 
@@ -367,37 +370,30 @@ Theorem C09_compositions_exact : forall (key : Z) (cells : dict cell) (l : list 
 Proof. exact comp_names_spec. Qed.
 Print Assumptions C09_compositions_exact.
 
-(* cells that share a material token: numerically different densities (under
-   any reading [value] of the stored strings) give different GEOMCOMP /
-   COMPOSITION names, equal stored strings give the same name *)
-Theorem C09_compositions_distinct : forall (X : Type) (value : string -> X) (c1 c2 : cell) (d1 d2 : string),
-  c_mat c1 = c_mat c2 -> c_dens c1 = Some d1 -> c_dens c2 = Some d2 ->
-  (value d1 <> value d2 -> material_name c1 <> material_name c2) /\
-  (d1 = d2 -> material_name c1 = material_name c2).
+(* cells of one material number: numerically different densities (under any
+   reading [value] of the stored strings) give different GEOMCOMP / COMPOSITION
+   names, equal stored strings give the same name *)
+Theorem C09_compositions_distinct : forall (X : Type) (value : string -> X) (z : Z) (c1 c2 : cell) (d1 d2 : string),
+  c_dens c1 = Some d1 -> c_dens c2 = Some d2 ->
+  (value d1 <> value d2 -> material_name z c1 <> material_name z c2) /\
+  (d1 = d2 -> material_name z c1 = material_name z c2).
 Proof. exact compositions_distinct. Qed.
 Print Assumptions C09_compositions_distinct.
 
-(* the name GEOMCOMP uses for a live cell is the name of an emitted composition
-   — when the material token is the canonical decimal spelling of its number *)
+(* the name GEOMCOMP uses for a live cell is the name of an emitted composition,
+   for every spelling of the material number that int() accepts (01, +1, ...) *)
 Theorem C09_geomcomp_name_has_composition :
   forall (key : Z) (cells : dict cell) (l : list string) (k : Z) (c : cell) (d : string),
   comp_names key cells = Ok l -> dens_normal cells ->
   In (k, c) cells -> live c = true -> int_of_token (c_mat c) = Some key ->
-  c_mat c = dec_Z key -> c_dens c = Some d ->
-  In ("m" ++ material_name c) l.
+  c_dens c = Some d ->
+  In ("m" ++ material_name key c) l.
 Proof. exact geomcomp_name_has_composition. Qed.
 Print Assumptions C09_geomcomp_name_has_composition.
 
-(* the guard on the token is needed (finding material_leading_zero, DESIGN 8 #16) *)
-Theorem C09_material_leading_zero_refuted :
-  exists key cells l k c, comp_names key cells = Ok l /\ In (k, c) cells /\ live c = true /\
-    int_of_token (c_mat c) = Some key /\ ~ In ("m" ++ material_name c) l.
-Proof. exact material_leading_zero_refuted. Qed.
-Print Assumptions C09_material_leading_zero_refuted.
-
 Example C09_compositions_nontrivial :
-  let cells := [(1, mkCell "1" (Some "-1.0") 1 0 None []); (2, mkCell "1" (Some "-2.5") 1 0 None []);
-                (3, mkCell "1" (Some "-1.0") 2 0 None []); (4, mkCell "1" (Some "-9.9") 1 2 None []);
+  let cells := [(1, mkCell "1" (Some "-1.0") 1 0 None []); (2, mkCell "01" (Some "-2.5") 1 0 None []);
+                (3, mkCell "+1" (Some "-1.0") 2 0 None []); (4, mkCell "1" (Some "-9.9") 1 2 None []);
                 (5, mkCell "1" (Some "-8.8") 0 0 None [])]%Z in
   comp_names 1 cells = Ok ["m1_-1.0"; "m1_-2.5"] /\
   normalize_float "-1.0" = Ok "-1.0" /\ normalize_float "-2.5" = Ok "-2.5".
